@@ -39,8 +39,11 @@ func NewUnpackInfo(dst string, header *tar.Header) (UnpackInfo, error) {
 	path = filepath.Join(dst, path)
 
 	// Check for paths outside our directory, they are forbidden
+	// (Compare whole path components: "/data/dst-evil" is not inside "/data/dst".)
 	target := filepath.Clean(path)
-	if !strings.HasPrefix(target, dst) {
+	cleanDst := filepath.Clean(dst)
+	dstPrefix := strings.TrimSuffix(cleanDst, string(filepath.Separator)) + string(filepath.Separator)
+	if target != cleanDst && !strings.HasPrefix(target, dstPrefix) {
 		return UnpackInfo{}, errors.New("invalid filename, traversal with \"..\" outside of current directory")
 	}
 
